@@ -160,7 +160,7 @@ def check_returned_storage(ctx, fx):
                           "the wrapper returns the %s: the C++ operation returns a reference/view into the URL object that stays valid and "
                           "tracks it; this pointer is dangling or shared by every handle" % "; ".join(bad),
                           where=(st.get("loc") or "").replace("/repo/", ""))
-    ctx.floor("G2", n, 100, "return statements of the C wrappers")
+    ctx.floor("G2", n, 90, "return statements of the C wrappers")
 
 
 def check(ctx, fx, hx):
@@ -338,9 +338,9 @@ def check(ctx, fx, hx):
             for v in hl.values():
                 t = v["ty"].replace("&", "").replace("*", "").strip()
                 acc_types.setdefault(hp_["ty"], set()).add((t, n))
-    ctx.floor("G1", n_g1, 60, "dereferences of expected handles")
-    ctx.floor("D2", n_d2, 30, "string_view(ptr,len) constructions from parameters")
-    ctx.floor("D1", n_d1, 50, "delegating wrappers")
+    ctx.floor("G1", n_g1, 50, "dereferences of expected handles")
+    ctx.floor("D2", n_d2, 24, "string_view(ptr,len) constructions from parameters")
+    ctx.floor("D1", n_d1, 45, "delegating wrappers")
 
     # ---- F1 ---------------------------------------------------------------------
     def canon(t):
@@ -363,7 +363,7 @@ def check(ctx, fx, hx):
         for nd, s, b in C.all_nodes(f):
             if nd.get("k") == "new" and nd.get("array"):
                 owners.append((f["name"], nd["ty"]))
-    ctx.floor("F1", len(owners), 4, "new char[] sites")
+    ctx.floor("F1", len(owners), 1, "new char[] sites")
     for fn, t in owners:
         ctx.check("F1", "%s: new %s[]" % (fn, t), t == "char", "char[]", "owned string allocated as %s[]" % t)
     fo = byname.get("ada_free_owned_string")
